@@ -1,6 +1,114 @@
-(** Proofs about the model of target/target.go (TargetCfgModel.v). *)
+(** Proofs about the model of target/target.go (TargetCfgModel.v).
+
+    Contents: [validate_spec] (Validate decides an order-independent
+    predicate), [load_gate], [handle_diffs_spec] (the handler calls of an
+    accepted load are exactly the difference of the effective configurations),
+    [replay_diff_ok] / [replay_converges] (replaying the calls, each load's in
+    any order, reproduces the effective configuration, for every history),
+    [unchanged_silent], and the refutation of convergence for the unpatched
+    code when the caller edits a loaded message in place. *)
 From Gnmi Require Import Base.Prelude TargetCfg.TargetCfgModel.
 Open Scope Z_scope.
+
+(** * association-list facts *)
+
+Section AssocFacts.
+Context {A : Type}.
+
+Lemma assoc_map_snd {B} (h : A -> B) k (l : list (string * A)) :
+  assoc k (map (fun kt => (fst kt, h (snd kt))) l) = option_map h (assoc k l).
+Proof.
+  induction l as [|[k' a] l IH]; cbn; [reflexivity|].
+  destruct (String.eqb k k'); auto.
+Qed.
+
+Lemma keys_map_snd {B} (h : A -> B) (l : list (string * A)) :
+  keys (map (fun kt => (fst kt, h (snd kt))) l) = keys l.
+Proof. induction l as [|[k' a] l IH]; cbn; congruence. Qed.
+
+Lemma NoDup_keys_NoDup (l : list (string * A)) : NoDup (keys l) -> NoDup l.
+Proof.
+  induction l as [|[k a] l IH]; cbn; intros H; [constructor|].
+  inversion H as [|? ? Hni Hnd]; subst. constructor; auto.
+  intros Hin. apply Hni. change k with (fst (k, a)). now apply in_map.
+Qed.
+
+Lemma assoc_ext_perm (a b : list (string * A)) :
+  NoDup (keys a) -> NoDup (keys b) -> (forall k, assoc k a = assoc k b) -> Permutation a b.
+Proof.
+  intros Ha Hb He. apply NoDup_Permutation; auto using NoDup_keys_NoDup.
+  intros [k v]; split; intros Hin.
+  - apply assoc_In. rewrite <- He. now apply In_assoc.
+  - apply assoc_In. rewrite He. now apply In_assoc.
+Qed.
+
+Lemma assoc_perm k (a b : list (string * A)) :
+  NoDup (keys a) -> Permutation a b -> assoc k a = assoc k b.
+Proof.
+  intros Ha Hp.
+  assert (Hb : NoDup (keys b)) by (eapply Permutation_NoDup; [apply Permutation_map; eassumption|assumption]).
+  destruct (assoc k a) as [v|] eqn:E.
+  - symmetry. apply In_assoc; auto. eapply Permutation_in; eauto. now apply assoc_In.
+  - destruct (assoc k b) as [v|] eqn:E'; [|reflexivity].
+    apply assoc_In in E'. apply Permutation_sym in Hp.
+    pose proof (Permutation_in _ Hp E') as Hin. apply In_assoc in Hin; auto. congruence.
+Qed.
+
+Lemma filter_key_absent k (l : list (string * A)) :
+  ~ In k (keys l) -> filter (fun kt => negb (String.eqb k (fst kt))) l = l.
+Proof.
+  induction l as [|[k' a] l IH]; cbn; intros H; [reflexivity|].
+  destruct (String.eqb_spec k k') as [->|Hn]; [tauto|]. cbn. f_equal. apply IH. tauto.
+Qed.
+
+Lemma adel_filter k (l : list (string * A)) :
+  NoDup (keys l) -> adel k l = filter (fun kt => negb (String.eqb k (fst kt))) l.
+Proof.
+  induction l as [|[k' a] l IH]; cbn; intros H; [reflexivity|].
+  inversion H as [|? ? Hni Hnd]; subst.
+  destruct (String.eqb_spec k k') as [->|Hn]; cbn.
+  - symmetry. now apply filter_key_absent.
+  - f_equal. auto.
+Qed.
+
+Lemma adel_absent k (l : list (string * A)) : ~ In k (keys l) -> adel k l = l.
+Proof.
+  induction l as [|[k' a] l IH]; cbn; intros H; [reflexivity|].
+  destruct (String.eqb_spec k k') as [->|Hn]; [tauto|]. f_equal. apply IH. tauto.
+Qed.
+
+End AssocFacts.
+
+Lemma filter_filter {A} (f g : A -> bool) l :
+  filter f (filter g l) = filter (fun x => g x && f x) l.
+Proof.
+  induction l as [|x l IH]; cbn; [reflexivity|].
+  destruct (g x); cbn; [destruct (f x)|]; cbn; congruence.
+Qed.
+
+Lemma filter_all {A} (f : A -> bool) l : (forall x, In x l -> f x = true) -> filter f l = l.
+Proof.
+  induction l as [|x l IH]; cbn; intros H; [reflexivity|].
+  rewrite (H x) by auto. f_equal. auto.
+Qed.
+
+Lemma flat_map_ext_In {A B} (f g : A -> list B) l :
+  (forall x, In x l -> f x = g x) -> flat_map f l = flat_map g l.
+Proof.
+  induction l as [|x l IH]; cbn; intros H; [reflexivity|].
+  rewrite (H x) by auto. f_equal. auto.
+Qed.
+
+Lemma flat_map_map {A B C} (f : B -> list C) (g : A -> B) l :
+  flat_map f (map g l) = flat_map (fun x => f (g x)) l.
+Proof. induction l as [|x l IH]; cbn; congruence. Qed.
+
+Lemma existsb_eqb_In k l : existsb (String.eqb k) l = true <-> In k l.
+Proof.
+  rewrite existsb_exists. split.
+  - intros (x & Hin & E). apply String.eqb_eq in E. now subst.
+  - intros H. exists k. split; auto. apply String.eqb_refl.
+Qed.
 
 Section Proofs.
 Context {R O X : Type}.
@@ -11,15 +119,887 @@ Variable O_empty : O.
 
 Notation config := (config R O X).
 Notation state := (state R O X).
+Notation target := (target O).
+Notation tval := (tval O).
+Notation rval := (rval R).
+Notation call := (call R O).
+Notation eff := (eff R O).
+Notation entry := (entry R O).
+Notation hop := (hop R O X).
 Notation load_gen := (@load_gen R O X R_eqb O_eqb R_empty O_empty).
+Notation run_gen := (@run_gen R O X R_eqb O_eqb R_empty O_empty).
+Notation hop_state := (@hop_state R O X R_eqb O_eqb R_empty O_empty).
+Notation hop_calls := (@hop_calls R O X R_eqb O_eqb R_empty O_empty).
+Notation handle_diffs := (@handle_diffs R O X R_eqb O_eqb).
+Notation eff_diff := (@eff_diff R O R_eqb O_eqb).
+Notation entry_eqb := (@entry_eqb R O R_eqb O_eqb).
+Notation clone_config := (@clone_config R O X R_empty O_empty).
+Notation store_gen := (@store_gen R O X R_empty O_empty).
+Notation mutate_gen := (@mutate_gen R O X).
 
-Lemma load_rejected_unchanged p (s : state) (arg : option config) :
-  snd (fst (load_gen p s arg)) <> None ->
-  fst (fst (load_gen p s arg)) = s /\ snd (load_gen p s arg) = [].
+(** * Validate *)
+
+(** what Validate demands of one target binding.  [p] is the patch flag: with
+    the patch a request entry that is a nil pointer does not count. *)
+Definition target_ok (p : bool) (reqs : list (string * rval)) (k : string) (t : tval) : Prop :=
+  k <> "" /\
+  exists t0, t = Some t0 /\ t_addresses t0 <> [] /\ t_request t0 <> "" /\
+             exists v, assoc (t_request t0) reqs = Some v /\ (p = true -> v <> None).
+
+Definition valid_p (p : bool) (c : config) : Prop :=
+  forall k t, In (k, t) (c_target c) -> target_ok p (c_request c) k t.
+
+(** Go maps have distinct keys *)
+Definition wf_config (c : config) : Prop :=
+  NoDup (keys (c_request c)) /\ NoDup (keys (c_target c)).
+
+Lemma validate_targets_spec p reqs ts :
+  validate_targets p reqs ts = None <-> (forall k t, In (k, t) ts -> target_ok p reqs k t).
 Proof.
-  unfold TargetCfgModel.load_gen. destruct arg as [cf|]; cbn; [|auto].
-  destruct (validate_gen p cf); cbn; [auto|].
-  destruct (check_revision s cf); cbn; [congruence|auto].
+  induction ts as [|[k t] ts IH]; cbn.
+  - split; [intros _ ? ? []|reflexivity].
+  - destruct (String.eqb_spec k "") as [->|Hk].
+    { split; [discriminate|]. intros H. destruct (H "" t (or_introl eq_refl)) as [Hn _]. congruence. }
+    destruct t as [t0|].
+    2:{ split; [discriminate|]. intros H.
+        destruct (H k None (or_introl eq_refl)) as [_ (t0 & E & _)]. discriminate. }
+    destruct (t_addresses t0) as [|a0 al] eqn:Ea.
+    { split; [discriminate|]. intros H.
+      destruct (H k (Some t0) (or_introl eq_refl)) as [_ (t1 & E & Hna & _)].
+      inversion E; subst. congruence. }
+    destruct (String.eqb_spec (t_request t0) "") as [Er|Hr].
+    { split; [discriminate|]. intros H.
+      destruct (H k (Some t0) (or_introl eq_refl)) as [_ (t1 & E & _ & Hnr & _)].
+      inversion E; subst. congruence. }
+    assert (Hhead : forall v, assoc (t_request t0) reqs = Some v -> (p = true -> v <> None) ->
+                              target_ok p reqs k (Some t0)).
+    { intros v Hv Hp. split; [assumption|]. exists t0. repeat split; try assumption.
+      - rewrite Ea. discriminate.
+      - eauto. }
+    destruct (assoc (t_request t0) reqs) as [v|] eqn:Ev.
+    2:{ split; [discriminate|]. intros H.
+        destruct (H k (Some t0) (or_introl eq_refl)) as [_ (t1 & E & _ & _ & (v & Hv & _))].
+        inversion E; subst. congruence. }
+    destruct v as [r|].
+    + rewrite IH. split.
+      * intros H k' t' [E|Hin]; [inversion E; subst; apply (Hhead (Some r)); [reflexivity|discriminate]|auto].
+      * intros H k' t' Hin. auto.
+    + destruct p.
+      * split; [discriminate|]. intros H.
+        destruct (H k (Some t0) (or_introl eq_refl)) as [_ (t1 & E & _ & _ & (v & Hv & Hp))].
+        inversion E; subst. rewrite Ev in Hv. inversion Hv; subst. now specialize (Hp eq_refl).
+      * rewrite IH. split.
+        -- intros H k' t' [E|Hin]; [inversion E; subst; apply (Hhead None); [reflexivity|discriminate]|auto].
+        -- intros H k' t' Hin. auto.
+Qed.
+
+Lemma validate_spec p (c : config) : validate_gen p c = None <-> valid_p p c.
+Proof. apply validate_targets_spec. Qed.
+
+(** whether Validate returns an error does not depend on map iteration order *)
+Lemma validate_order_independent p (c c' : config) :
+  wf_config c ->
+  Permutation (c_request c) (c_request c') -> Permutation (c_target c) (c_target c') ->
+  (validate_gen p c = None <-> validate_gen p c' = None).
+Proof.
+  intros [Hr _] Pr Pt. rewrite !validate_spec. unfold valid_p.
+  assert (Ha : forall k, assoc k (c_request c) = assoc k (c_request c')) by (intros; now apply assoc_perm).
+  split; intros H k t Hin.
+  - apply (Permutation_in _ (Permutation_sym Pt)) in Hin. specialize (H k t Hin).
+    destruct H as [H1 (t0 & E & H2 & H3 & (v & Hv & Hp))]. split; auto.
+    exists t0. repeat split; auto. exists v. rewrite <- Ha. auto.
+  - apply (Permutation_in _ Pt) in Hin. specialize (H k t Hin).
+    destruct H as [H1 (t0 & E & H2 & H3 & (v & Hv & Hp))]. split; auto.
+    exists t0. repeat split; auto. exists v. rewrite Ha. auto.
+Qed.
+
+(** the patched Validate is the stricter one *)
+Lemma valid_p_weaken p c : valid_p p c -> valid_p false c.
+Proof.
+  intros H k t Hin. destruct (H k t Hin) as [H1 (t0 & E & H2 & H3 & (v & Hv & _))].
+  split; auto. exists t0. repeat split; auto. exists v. split; auto. discriminate.
+Qed.
+
+(** * the gate *)
+
+Definition newer (s : state) (cf : config) : Prop :=
+  match s with None => True | Some cur => c_revision cur < c_revision cf end.
+
+Lemma check_revision_spec s cf : check_revision s cf = true <-> newer s cf.
+Proof.
+  destruct s as [cur|]; cbn; [|tauto].
+  rewrite negb_true_iff, Z.leb_gt. tauto.
+Qed.
+
+(** [load_gate]: a load is applied iff its argument is a valid configuration
+    whose revision is strictly greater than the current one (or there is no
+    current one); then the state is the (stored copy of the) argument;
+    otherwise the state is unchanged and no handler runs. *)
+Lemma load_gate p (s : state) (arg : option config) :
+  (load_err R_eqb O_eqb R_empty O_empty p s arg = None <->
+   exists cf, arg = Some cf /\ valid_p p cf /\ newer s cf)
+  /\ (forall cf, arg = Some cf -> valid_p p cf -> newer s cf ->
+        load_state R_eqb O_eqb R_empty O_empty p s arg = Some (store_gen p cf))
+  /\ (load_err R_eqb O_eqb R_empty O_empty p s arg <> None ->
+        load_state R_eqb O_eqb R_empty O_empty p s arg = s
+        /\ load_calls R_eqb O_eqb R_empty O_empty p s arg = []).
+Proof.
+  unfold load_err, load_state, load_calls, TargetCfgModel.load_gen.
+  destruct arg as [cf|]; cbn.
+  2:{ split; [split; [discriminate|intros (cf & E & _); discriminate]|].
+      split; [intros ? E; discriminate|auto]. }
+  destruct (validate_gen p cf) as [e|] eqn:Ev; cbn.
+  { split; [split; [discriminate|]|split; [|auto]].
+    - intros (cf' & E & Hv & _). inversion E; subst. apply validate_spec in Hv. congruence.
+    - intros cf' E Hv. inversion E; subst. apply validate_spec in Hv. congruence. }
+  apply validate_spec in Ev.
+  destruct (check_revision s cf) eqn:Ec; cbn.
+  - apply check_revision_spec in Ec.
+    split; [split; [eauto|reflexivity]|split; [|congruence]].
+    intros cf' E _ _. now inversion E.
+  - assert (Hn : ~ newer s cf) by (rewrite <- check_revision_spec; congruence).
+    split; [split; [discriminate|]|split; [|auto]].
+    + intros (cf' & E & _ & Hn'). inversion E; subst. contradiction.
+    + intros cf' E _ Hn'. inversion E; subst. contradiction.
+Qed.
+
+(** * proto.Equal on the compared messages *)
+
+Lemma strs_eqb_spec a b : strs_eqb a b = true <-> a = b.
+Proof.
+  revert b; induction a as [|x a IH]; intros [|y b]; cbn; try (split; congruence).
+  rewrite andb_true_iff, String.eqb_eq, IH. split; [intros [-> ->]; reflexivity|intros E; inversion E; auto].
+Qed.
+
+(** from here on: the two abstract comparisons are equality of content *)
+Hypothesis R_eqb_spec : forall a b, R_eqb a b = true <-> a = b.
+Hypothesis O_eqb_spec : forall a b, O_eqb a b = true <-> a = b.
+
+Lemma target_eqb_spec (a b : target) : target_eqb O_eqb a b = true <-> a = b.
+Proof.
+  unfold target_eqb. rewrite !andb_true_iff, strs_eqb_spec, String.eqb_eq, O_eqb_spec.
+  destruct a, b; cbn. split; [intros [[-> ->] ->]; reflexivity|intros E; inversion E; auto].
+Qed.
+
+Lemma tval_eqb_spec (a b : tval) : tval_eqb O_eqb a b = true <-> a = b.
+Proof.
+  destruct a as [a|], b as [b|]; cbn; try (split; congruence).
+  rewrite target_eqb_spec. split; congruence.
+Qed.
+
+Lemma rval_eqb_spec (a b : rval) : rval_eqb R_eqb a b = true <-> a = b.
+Proof.
+  destruct a as [a|], b as [b|]; cbn; try (split; congruence).
+  rewrite R_eqb_spec. split; congruence.
+Qed.
+
+Lemma entry_eqb_spec (a b : entry) : entry_eqb a b = true <-> a = b.
+Proof.
+  unfold TargetCfgModel.entry_eqb. rewrite andb_true_iff, tval_eqb_spec, rval_eqb_spec.
+  destruct a, b; cbn. split; [intros [-> ->]; reflexivity|intros E; inversion E; auto].
+Qed.
+
+(** * handleDiffs announces exactly the difference of the effective configurations *)
+
+Lemma is_changed_in (old new : list (string * rval)) r :
+  is_changed (request_changed R_eqb old new) r = true -> In r (keys new).
+Proof.
+  unfold is_changed, request_changed. rewrite existsb_eqb_In, in_flat_map.
+  intros ([k v] & Hin & Hr). cbn in Hr.
+  destruct (assoc k old) as [o|]; [|destruct Hr].
+  destruct (negb (rval_eqb R_eqb o v)); [|destruct Hr].
+  destruct Hr as [<-|[]]. change k with (fst (k, v)). now apply in_map.
+Qed.
+
+Lemma is_changed_spec (old new : list (string * rval)) r vo vn :
+  NoDup (keys new) -> assoc r old = Some vo -> assoc r new = Some vn ->
+  is_changed (request_changed R_eqb old new) r = negb (rval_eqb R_eqb vo vn).
+Proof.
+  intros Hnd Ho. revert Hnd.
+  induction new as [|[k v] new IH]; intros Hnd Hn; [discriminate|].
+  inversion Hnd as [|? ? Hni Hnd']; subst.
+  unfold is_changed, request_changed in *. cbn [flat_map fst snd]. rewrite existsb_app.
+  cbn [assoc fst snd] in Hn.
+  destruct (String.eqb_spec r k) as [->|Hne].
+  - inversion Hn; subst. rewrite Ho.
+    match goal with |- _ || ?b = _ => destruct b eqn:E end.
+    { apply (is_changed_in old new k) in E. contradiction. }
+    destruct (rval_eqb R_eqb vo vn); cbn; rewrite ?String.eqb_refl; reflexivity.
+  - rewrite IH by auto.
+    destruct (assoc k old) as [o|]; [|reflexivity].
+    destruct (negb (rval_eqb R_eqb o v)); [|reflexivity].
+    cbn. destruct (String.eqb_spec r k); [congruence|reflexivity].
+Qed.
+
+(** the calls one old target gives rise to, given the new target map *)
+Definition step_calls (rc : list string) (nr : list (string * rval))
+    (nts : list (string * tval)) (kt : string * tval) : list call :=
+  match map_get (fst kt) nts with
+  | None => [HDelete (fst kt)]
+  | Some nt =>
+      if negb (is_changed rc (get_request_name (snd kt))) && tval_eqb O_eqb (snd kt) (Some nt)
+      then []
+      else [HUpdate (fst kt) (map_get (t_request nt) nr) (Some nt)]
+  end.
+
+Definition no_nil (nts : list (string * tval)) : Prop := forall k, ~ In (k, None) nts.
+
+Lemma map_get_cases {A} k (m : list (string * option A)) :
+  (assoc k m = None /\ map_get k m = None) \/ (exists v, assoc k m = Some v /\ map_get k m = v).
+Proof. unfold map_get. destruct (assoc k m) as [v|]; eauto. Qed.
+
+Lemma map_get_assoc_Some {A} k (m : list (string * option A)) v :
+  assoc k m = Some v -> map_get k m = v.
+Proof. unfold map_get. now intros ->. Qed.
+
+Lemma map_get_None_absent k (nts : list (string * tval)) :
+  no_nil nts -> map_get k nts = None -> ~ In k (keys nts).
+Proof.
+  intros Hnn H. destruct (map_get_cases k nts) as [[Ea _]|(v & Ea & Em)].
+  - now apply assoc_None.
+  - rewrite H in Em. subst v. apply assoc_In in Ea. exfalso. eapply Hnn; eauto.
+Qed.
+
+Lemma fold_diff_old rc nr (l : list (string * tval)) :
+  forall nts cs,
+    NoDup (keys l) -> NoDup (keys nts) -> no_nil nts ->
+    fold_left (diff_old O_eqb rc nr) l (nts, cs) =
+    (filter (fun kt => negb (existsb (String.eqb (fst kt)) (keys l))) nts,
+     cs ++ flat_map (step_calls rc nr nts) l).
+Proof.
+  induction l as [|[k t] l IH]; intros nts cs Hl Hn Hnn.
+  - cbn. rewrite app_nil_r. f_equal. symmetry. now apply filter_all.
+  - inversion Hl as [|? ? Hni Hl']; subst. cbn [fold_left].
+    assert (Hstep : diff_old O_eqb rc nr (nts, cs) (k, t) = (adel k nts, cs ++ step_calls rc nr nts (k, t))).
+    { unfold diff_old, step_calls. cbn [fst snd].
+      destruct (map_get k nts) as [nt|] eqn:E.
+      - destruct (negb (is_changed rc (get_request_name t)) && tval_eqb O_eqb t (Some nt));
+          [now rewrite app_nil_r|reflexivity].
+      - rewrite adel_absent; [reflexivity|]. now apply map_get_None_absent. }
+    rewrite Hstep, IH; auto.
+    + f_equal.
+      * rewrite adel_filter by assumption. rewrite filter_filter. apply filter_ext.
+        intros [k' t']. cbn. rewrite (String.eqb_sym k k'). now rewrite negb_orb.
+      * rewrite <- app_assoc. f_equal. cbn [flat_map]. f_equal.
+        apply flat_map_ext_In. intros [k' t'] Hin. unfold step_calls. cbn [fst snd].
+        assert (k' <> k).
+        { intros ->. apply Hni. change k with (fst (k, t')). now apply in_map. }
+        unfold map_get. rewrite assoc_adel by assumption.
+        destruct (String.eqb_spec k' k); [congruence|reflexivity].
+    + now apply NoDup_keys_adel.
+    + intros k' Hin. apply (Hnn k'). rewrite adel_filter in Hin by assumption.
+      apply filter_In in Hin. tauto.
+Qed.
+
+(** state invariant: the current configuration, if any, passed Validate and
+    has distinct map keys *)
+Definition state_ok (s : state) : Prop :=
+  match s with None => True | Some c => wf_config c /\ valid_p false c end.
+
+Lemma keys_effective (c : config) : keys (effective (Some c)) = keys (c_target c).
+Proof. cbn. apply (keys_map_snd (fun t => (t, map_get (get_request_name t) (c_request c)))). Qed.
+
+Lemma assoc_effective k (c : config) :
+  assoc k (effective (Some c)) =
+  option_map (fun t => (t, map_get (get_request_name t) (c_request c)))
+             (@assoc (option target) k (c_target c)).
+Proof. cbn. apply (assoc_map_snd (fun t => (t, map_get (get_request_name t) (c_request c)))). Qed.
+
+Lemma NoDup_keys_effective (s : state) : state_ok s -> NoDup (keys (effective s)).
+Proof.
+  destruct s as [c|]; [|constructor]. intros [[_ H] _]. now rewrite keys_effective.
+Qed.
+
+Lemma valid_no_nil p (c : config) : valid_p p c -> no_nil (c_target c).
+Proof. intros H k Hin. destruct (H k None Hin) as [_ (t0 & E & _)]. discriminate. Qed.
+
+Lemma handle_diffs_spec (s : state) (cf : config) :
+  state_ok s -> valid_p false cf -> wf_config cf ->
+  handle_diffs s cf = eff_diff (effective s) (effective (Some cf)).
+Proof.
+  intros Hs Hv [Hwr Hwt]. unfold TargetCfgModel.handle_diffs, TargetCfgModel.eff_diff.
+  pose proof (valid_no_nil _ _ Hv) as Hnn.
+  assert (Hl : NoDup (keys (get_targets s))).
+  { destruct s as [c|]; cbn; [apply Hs|constructor]. }
+  rewrite fold_diff_old by assumption. cbn [fst snd app]. f_equal.
+  - (* calls for the old targets *)
+    destruct s as [c|]; [|reflexivity]. destruct Hs as [[Hcr Hct] Hcv].
+    cbn [get_targets get_requests effective]. rewrite flat_map_map.
+    apply flat_map_ext_In. intros [k t] Hin. cbn [fst snd]. unfold step_calls. cbn [fst snd].
+    change (map _ (c_target cf)) with (effective (Some cf)). rewrite assoc_effective.
+    unfold map_get at 1.
+    destruct (@assoc (option target) k (c_target cf)) as [[nt|]|] eqn:En; cbn [option_map].
+    + (* present in both *)
+      unfold TargetCfgModel.entry_eqb. cbn [fst snd get_request_name].
+      destruct (tval_eqb O_eqb t (Some nt)) eqn:Et; cbn [andb]; [|now rewrite andb_false_r].
+      apply tval_eqb_spec in Et. subst t. cbn [get_request_name]. rewrite andb_true_r.
+      destruct (Hcv k (Some nt) Hin) as [_ (t0 & E0 & _ & _ & (vo & Hvo & _))]. inversion E0; subst t0.
+      apply assoc_In in En.
+      destruct (Hv k (Some nt) En) as [_ (t1 & E1 & _ & _ & (vn & Hvn & _))]. inversion E1; subst t1.
+      rewrite (is_changed_spec _ _ _ vo vn) by assumption.
+      rewrite (map_get_assoc_Some _ _ _ Hvo), (map_get_assoc_Some _ _ _ Hvn).
+      rewrite negb_involutive. reflexivity.
+    + (* nil pointer in the new map: excluded by validity *)
+      apply assoc_In in En. exfalso. eapply Hnn; eauto.
+    + reflexivity.
+  - (* leftovers are the new targets *)
+    assert (Ha : forall k, assoc k (effective s) = None <-> ~ In k (keys (get_targets s))).
+    { intros k. destruct s as [c|]; cbn [get_targets]; [|cbn; tauto].
+      rewrite assoc_None, keys_effective. tauto. }
+    cbn [effective]. rewrite flat_map_map. clear Hnn Hv Hwt.
+    induction (c_target cf) as [|[k t] l IH]; cbn; [reflexivity|].
+    destruct (assoc k (effective s)) as [e|] eqn:E.
+    + assert (Hin : In k (keys (get_targets s))).
+      { destruct (in_dec string_dec k (keys (get_targets s))); auto.
+        apply Ha in n. congruence. }
+      apply existsb_eqb_In in Hin. rewrite Hin. cbn. apply IH.
+    + apply Ha in E.
+      destruct (existsb (String.eqb k) (keys (get_targets s))) eqn:Ex.
+      { apply existsb_eqb_In in Ex. contradiction. }
+      cbn. f_equal. apply IH.
+Qed.
+
+(** * replaying a correct set of announcements, in any order *)
+
+(** [c] is a correct announcement of the change from [e1] to [e2] *)
+Definition call_ok (e1 e2 : eff) (c : call) : Prop :=
+  match c with
+  | HAdd n r t => assoc n e1 = None /\ assoc n e2 = Some (t, r)
+  | HUpdate n r t => assoc n e1 <> None /\ assoc n e2 = Some (t, r)
+  | HDelete n => assoc n e1 <> None /\ assoc n e2 = None
+  end.
+
+(** [cs] announces the change from [e1] to [e2]: at most one call per target,
+    each correct, and every target without a call is the same on both sides.
+    Nothing here depends on the order of [cs]. *)
+Definition diff_ok (e1 e2 : eff) (cs : list call) : Prop :=
+  NoDup (map call_name cs)
+  /\ Forall (call_ok e1 e2) cs
+  /\ (forall k, ~ In k (map call_name cs) -> assoc k e1 = assoc k e2).
+
+Lemma diff_ok_perm e1 e2 cs cs' : Permutation cs cs' -> diff_ok e1 e2 cs -> diff_ok e1 e2 cs'.
+Proof.
+  intros Hp (H1 & H2 & H3). repeat split.
+  - eapply Permutation_NoDup; [apply Permutation_map; eassumption|assumption].
+  - eapply Permutation_Forall; eassumption.
+  - intros k Hk. apply H3. intros Hin. apply Hk.
+    eapply Permutation_in; [apply Permutation_map; eassumption|assumption].
+Qed.
+
+Lemma diff_ok_ext e1 e1' e2 e2' cs :
+  (forall k, assoc k e1 = assoc k e1') -> (forall k, assoc k e2 = assoc k e2') ->
+  diff_ok e1 e2 cs -> diff_ok e1' e2' cs.
+Proof.
+  intros E1 E2 (H1 & H2 & H3). repeat split; auto.
+  - eapply Forall_impl; [|exact H2]. intros [n r t|n r t|n]; cbn; rewrite <- ?E1, <- ?E2; auto.
+  - intros k Hk. rewrite <- E1, <- E2. auto.
+Qed.
+
+Lemma diff_ok_nil e : diff_ok e e [].
+Proof. split; [constructor|split; [constructor|reflexivity]]. Qed.
+
+Lemma replay_call_ok e1 e2 c :
+  NoDup (keys e1) -> call_ok e1 e2 c ->
+  exists e1', replay_call e1 c = Some e1' /\ NoDup (keys e1')
+              /\ forall k, assoc k e1' = if String.eqb k (call_name c) then assoc k e2 else assoc k e1.
+Proof.
+  intros Hnd. destruct c as [n r t|n r t|n]; cbn; intros [Ha Hb].
+  - rewrite Ha. eexists; split; [reflexivity|]. split; [now apply NoDup_keys_aset|].
+    intros k. rewrite assoc_aset. destruct (String.eqb_spec k n); [subst; now rewrite Hb|reflexivity].
+  - destruct (assoc n e1) as [x|]; [|congruence].
+    eexists; split; [reflexivity|]. split; [now apply NoDup_keys_aset|].
+    intros k. rewrite assoc_aset. destruct (String.eqb_spec k n); [subst; now rewrite Hb|reflexivity].
+  - destruct (assoc n e1) as [x|]; [|congruence].
+    eexists; split; [reflexivity|]. split; [now apply NoDup_keys_adel|].
+    intros k. rewrite assoc_adel by assumption.
+    destruct (String.eqb_spec k n); [subst; now rewrite Hb|reflexivity].
+Qed.
+
+Lemma replay_diff_ok cs : forall e1 e2,
+  NoDup (keys e1) -> diff_ok e1 e2 cs ->
+  exists e, replay cs e1 = Some e /\ NoDup (keys e) /\ forall k, assoc k e = assoc k e2.
+Proof.
+  induction cs as [|c cs IH]; intros e1 e2 Hnd (H1 & H2 & H3).
+  - exists e1. repeat split; auto.
+  - inversion H1 as [|? ? Hni H1']; subst. inversion H2 as [|? ? Hc H2']; subst.
+    destruct (replay_call_ok e1 e2 c Hnd Hc) as (e1' & Er & Hnd' & Ha).
+    cbn [replay]. rewrite Er. apply (IH e1' e2 Hnd').
+    repeat split; auto.
+    + eapply Forall_forall. intros c' Hin. rewrite Forall_forall in H2'. specialize (H2' c' Hin).
+      assert (Hne : call_name c' <> call_name c).
+      { intros E. apply Hni. rewrite <- E. now apply in_map. }
+      destruct c' as [n r t|n r t|n]; cbn in *; rewrite Ha;
+        (destruct (String.eqb_spec n (call_name c)); [congruence|assumption]).
+    + intros k Hk. rewrite Ha. destruct (String.eqb_spec k (call_name c)) as [->|Hne]; [reflexivity|].
+      apply H3. cbn. intros [E|Hin]; [congruence|contradiction].
+Qed.
+
+Lemma replay_app cs1 cs2 (e : eff) :
+  replay (cs1 ++ cs2) e = match replay cs1 e with Some e' => replay cs2 e' | None => None end.
+Proof.
+  revert e; induction cs1 as [|c cs1 IH]; intros e; cbn; [reflexivity|].
+  destruct (replay_call e c); auto.
+Qed.
+
+(** the specified difference is a correct set of announcements *)
+
+Lemma names_flat_map (f : string * entry -> list call) (e : eff) :
+  (forall ke c, In c (f ke) -> call_name c = fst ke) ->
+  (forall ke, (List.length (f ke) <= 1)%nat) ->
+  NoDup (keys e) -> NoDup (map call_name (flat_map f e))
+  /\ forall n, In n (map call_name (flat_map f e)) -> In n (keys e).
+Proof.
+  intros Hname Hlen. induction e as [|ke e IH]; cbn; intros Hnd; [split; [constructor|tauto]|].
+  inversion Hnd as [|? ? Hni Hnd']; subst. destruct (IH Hnd') as [IH1 IH2].
+  rewrite map_app. split.
+  - pose proof (Hlen ke) as Hl. pose proof (Hname ke) as Hn.
+    destruct (f ke) as [|c [|c' l]]; cbn in *; [assumption| |lia].
+    constructor; auto. rewrite (Hn c) by auto. intros Hin. apply Hni. auto.
+  - intros n. rewrite in_app_iff. intros [Hin|Hin]; [|right; auto].
+    left. apply in_map_iff in Hin as (c & <- & Hc). symmetry. now apply Hname.
+Qed.
+
+Lemma eff_diff_ok (e1 e2 : eff) :
+  NoDup (keys e1) -> NoDup (keys e2) -> diff_ok e1 e2 (eff_diff e1 e2).
+Proof.
+  intros H1 H2. unfold TargetCfgModel.eff_diff.
+  set (f1 := fun ke : string * entry =>
+               match assoc (fst ke) e2 with
+               | None => [HDelete (fst ke)]
+               | Some e' => if entry_eqb (snd ke) e' then [] else [HUpdate (fst ke) (snd e') (fst e')]
+               end).
+  set (f2 := fun ke : string * entry =>
+               match assoc (fst ke) e1 with
+               | None => [HAdd (fst ke) (snd (snd ke)) (fst (snd ke))]
+               | Some _ => []
+               end).
+  assert (N1 : forall ke c, In c (f1 ke) -> call_name c = fst ke).
+  { intros ke c. unfold f1. destruct (assoc (fst ke) e2) as [e'|].
+    - destruct (entry_eqb (snd ke) e'); [intros []|intros [<-|[]]; reflexivity].
+    - intros [<-|[]]; reflexivity. }
+  assert (L1 : forall ke, (List.length (f1 ke) <= 1)%nat).
+  { intros ke. unfold f1. destruct (assoc (fst ke) e2) as [e'|]; [destruct (entry_eqb (snd ke) e')|]; cbn; lia. }
+  assert (N2 : forall ke c, In c (f2 ke) -> call_name c = fst ke).
+  { intros ke c. unfold f2. destruct (assoc (fst ke) e1); [intros []|intros [<-|[]]; reflexivity]. }
+  assert (L2 : forall ke, (List.length (f2 ke) <= 1)%nat).
+  { intros ke. unfold f2. destruct (assoc (fst ke) e1); cbn; lia. }
+  destruct (names_flat_map f1 e1 N1 L1 H1) as [D1 I1].
+  destruct (names_flat_map f2 e2 N2 L2 H2) as [D2 I2].
+  assert (A2 : forall n, In n (map call_name (flat_map f2 e2)) -> assoc n e1 = None).
+  { intros n Hin. apply in_map_iff in Hin as (c & <- & Hc). apply in_flat_map in Hc as (ke & Hke & Hc).
+    rewrite (N2 ke c Hc). unfold f2 in Hc. destruct (assoc (fst ke) e1); [destruct Hc|reflexivity]. }
+  repeat split.
+  - rewrite map_app. apply NoDup_app_intro; auto.
+    intros n Hn1 Hn2. apply I1 in Hn1. apply A2 in Hn2. apply assoc_None in Hn2. contradiction.
+  - apply Forall_app. split; apply Forall_forall; intros c Hc; apply in_flat_map in Hc as ([k v] & Hke & Hc).
+    + unfold f1 in Hc. cbn [fst snd] in Hc.
+      assert (Hk : assoc k e1 <> None) by (rewrite (In_assoc _ _ _ H1 Hke); discriminate).
+      destruct (assoc k e2) as [[t r]|] eqn:E2.
+      * destruct (entry_eqb v (t, r)); [destruct Hc|]. destruct Hc as [<-|[]]. cbn. auto.
+      * destruct Hc as [<-|[]]. cbn. auto.
+    + unfold f2 in Hc. cbn [fst snd] in Hc. destruct (assoc k e1) eqn:E1; [destruct Hc|].
+      destruct Hc as [<-|[]]. cbn. split; auto. rewrite (In_assoc _ _ _ H2 Hke). now destruct v.
+  - intros k Hk. rewrite map_app, in_app_iff in Hk.
+    destruct (assoc k e1) as [v1|] eqn:E1.
+    + destruct (assoc k e2) as [v2|] eqn:E2.
+      * destruct (entry_eqb v1 v2) eqn:Ee; [apply entry_eqb_spec in Ee; congruence|].
+        exfalso. apply Hk. left. apply in_map_iff. exists (HUpdate k (snd v2) (fst v2)). split; auto.
+        apply in_flat_map. exists (k, v1). split; [now apply assoc_In|].
+        unfold f1. cbn [fst snd]. rewrite E2, Ee. now left.
+      * exfalso. apply Hk. left. apply in_map_iff. exists (HDelete k). split; auto.
+        apply in_flat_map. exists (k, v1). split; [now apply assoc_In|].
+        unfold f1. cbn [fst snd]. rewrite E2. now left.
+    + destruct (assoc k e2) as [v2|] eqn:E2; [|reflexivity].
+      exfalso. apply Hk. right. apply in_map_iff. exists (HAdd k (snd v2) (fst v2)). split; auto.
+      apply in_flat_map. exists (k, v2). split; [now apply assoc_In|].
+      unfold f2. cbn [fst snd]. rewrite E1. now left.
+Qed.
+
+(** * one step of a history *)
+
+Definition hop_wf (h : hop) : Prop :=
+  match h with
+  | HLoad (Some cf) => wf_config cf
+  | HLoad None => True
+  | HMutate c' => wf_config c'
+  end.
+
+Lemma clone_config_wf (c : config) : wf_config c -> wf_config (clone_config c).
+Proof.
+  intros [H1 H2]. split; cbn.
+  - now rewrite (keys_map_snd (fun v : rval => match v with Some r => Some r | None => Some R_empty end)).
+  - now rewrite (keys_map_snd (fun v : tval => match v with Some t => Some t | None => Some (mkTarget [] "" O_empty) end)).
+Qed.
+
+Lemma effective_clone (c : config) :
+  valid_p true c -> effective (Some (clone_config c)) = effective (Some c).
+Proof.
+  intros Hv. cbn [effective clone_config c_target c_request]. rewrite map_map.
+  apply map_ext_in. intros [k t] Hin. cbn [fst snd].
+  destruct (Hv k t Hin) as [_ (t0 & -> & _ & _ & (v & Ha & Hn))]. cbn [get_request_name].
+  f_equal. f_equal. unfold map_get.
+  rewrite (assoc_map_snd (fun v : rval => match v with Some r => Some r | None => Some R_empty end)).
+  unfold TargetCfgModel.rval in *. rewrite Ha. cbn.
+  destruct v; [reflexivity|]. now specialize (Hn eq_refl).
+Qed.
+
+Lemma clone_config_valid p (c : config) : valid_p p c -> valid_p false (clone_config c).
+Proof.
+  intros Hv k t Hin. cbn [clone_config c_target c_request] in *.
+  apply in_map_iff in Hin as ([k' t'] & E & Hin). cbn [fst snd] in E. inversion E; subst k t. clear E.
+  destruct (Hv k' t' Hin) as [H1 (t0 & -> & H2 & H3 & (v & Ha & _))].
+  split; auto. exists t0. repeat split; auto.
+  exists (match v with Some r => Some r | None => Some R_empty end). split; [|discriminate].
+  rewrite (assoc_map_snd (fun v : rval => match v with Some r => Some r | None => Some R_empty end)).
+  unfold TargetCfgModel.rval in *. now rewrite Ha.
+Qed.
+
+Lemma store_ok p (cf : config) :
+  wf_config cf -> valid_p p cf ->
+  state_ok (Some (store_gen p cf))
+  /\ effective (Some (store_gen p cf)) = effective (Some cf).
+Proof.
+  intros Hw Hv. unfold TargetCfgModel.store_gen. destruct p.
+  - split; [|now apply effective_clone].
+    split; [now apply clone_config_wf|now apply (clone_config_valid true)].
+  - split; [split; assumption|reflexivity].
+Qed.
+
+(** an accepted load announces exactly the difference of the effective
+    configurations *)
+Lemma load_calls_exact p (s : state) (cf : config) :
+  state_ok s -> wf_config cf ->
+  load_err R_eqb O_eqb R_empty O_empty p s (Some cf) = None ->
+  load_calls R_eqb O_eqb R_empty O_empty p s (Some cf)
+  = eff_diff (effective s) (effective (Some cf)).
+Proof.
+  intros Hs Hw. unfold load_err, load_calls, TargetCfgModel.load_gen.
+  destruct (validate_gen p cf) eqn:Ev; cbn; [discriminate|].
+  destruct (check_revision s cf); cbn; [|discriminate].
+  intros _. apply validate_spec in Ev. apply handle_diffs_spec; auto. now apply (valid_p_weaken p).
+Qed.
+
+Lemma hop_step p (s : state) (h : hop) :
+  state_ok s -> hop_wf h -> (p = true \/ is_load h = true) ->
+  state_ok (hop_state p s h)
+  /\ diff_ok (effective s) (effective (hop_state p s h)) (hop_calls p s h).
+Proof.
+  intros Hs Hw Hp. destruct h as [arg|c']; cbn [hop_state hop_calls].
+  - unfold load_state, load_calls, TargetCfgModel.load_gen.
+    destruct arg as [cf|]; cbn [fst snd]; [|split; [assumption|apply diff_ok_nil]].
+    destruct (validate_gen p cf) eqn:Ev; cbn [fst snd]; [split; [assumption|apply diff_ok_nil]|].
+    destruct (check_revision s cf); cbn [fst snd]; [|split; [assumption|apply diff_ok_nil]].
+    apply validate_spec in Ev. cbn in Hw.
+    destruct (store_ok p cf Hw Ev) as [Hso He]. split; [assumption|].
+    rewrite He, handle_diffs_spec by (auto; now apply (valid_p_weaken p)).
+    apply eff_diff_ok.
+    + now apply NoDup_keys_effective.
+    + rewrite keys_effective. apply Hw.
+  - destruct Hp as [->|Hl]; [|discriminate]. cbn. split; [assumption|apply diff_ok_nil].
+Qed.
+
+(** * every history *)
+
+Lemma replay_run p (hs : list hop) : forall (s : state) (e0 : eff) css',
+  state_ok s -> NoDup (keys e0) -> (forall k, assoc k e0 = assoc k (effective s)) ->
+  Forall hop_wf hs -> (p = true \/ forallb is_load hs = true) ->
+  Forall2 (@Permutation call) (snd (run_gen p s hs)) css' ->
+  state_ok (fst (run_gen p s hs))
+  /\ exists e, replay (List.concat css') e0 = Some e /\ NoDup (keys e)
+               /\ forall k, assoc k e = assoc k (effective (fst (run_gen p s hs))).
+Proof.
+  induction hs as [|h hs IH]; intros s e0 css' Hs Hnd He Hw Hp Hperm.
+  - cbn in *. inversion Hperm; subst. cbn. split; [assumption|]. exists e0. auto.
+  - cbn [run_gen fst snd] in *. inversion Hperm as [|cs cs' css css'' Hp1 Hp2]; subst.
+    inversion Hw as [|? ? Hw1 Hw2]; subst.
+    assert (Hp' : (p = true \/ is_load h = true) /\ (p = true \/ forallb is_load hs = true)).
+    { destruct Hp as [->|Hl]; [auto|]. cbn in Hl. apply andb_true_iff in Hl. tauto. }
+    destruct Hp' as [Hph Hpt].
+    destruct (hop_step p s h Hs Hw1 Hph) as [Hs' Hd].
+    assert (Hd' : diff_ok e0 (effective (hop_state p s h)) cs').
+    { eapply diff_ok_perm; [eassumption|].
+      eapply diff_ok_ext; [| |exact Hd]; [intros k; symmetry; apply He|reflexivity]. }
+    destruct (replay_diff_ok cs' e0 _ Hnd Hd') as (e1 & Er & Hnd1 & He1).
+    cbn [List.concat]. rewrite replay_app, Er.
+    apply (IH (hop_state p s h) e1 css''); auto.
+Qed.
+
+(** [replay_converges]: for every history of loads -- valid or not, newer or
+    not, with or (patched code only) without in-place edits by the caller --
+    replaying the Add/Update/Delete calls, those of each load in any order,
+    onto the effective initial configuration never hits a protocol error and
+    yields exactly the effective current configuration. *)
+Lemma replay_converges p (s0 : state) (hs : list hop) :
+  state_ok s0 -> Forall hop_wf hs -> (p = true \/ forallb is_load hs = true) ->
+  forall css', Forall2 (@Permutation call) (snd (run_gen p s0 hs)) css' ->
+  exists e, replay (List.concat css') (effective s0) = Some e
+            /\ Permutation e (effective (fst (run_gen p s0 hs))).
+Proof.
+  intros Hs Hw Hp css' Hperm.
+  destruct (replay_run p hs s0 (effective s0) css' Hs (NoDup_keys_effective _ Hs) (fun _ => eq_refl) Hw Hp Hperm)
+    as (Hsf & e & Er & Hnd & He).
+  exists e. split; [assumption|].
+  apply assoc_ext_perm; auto. now apply NoDup_keys_effective.
+Qed.
+
+(** the result of a replay does not depend on the order inside a load *)
+Lemma replay_order_independent p (s0 : state) (hs : list hop) css1 css2 e1 e2 :
+  state_ok s0 -> Forall hop_wf hs -> (p = true \/ forallb is_load hs = true) ->
+  Forall2 (@Permutation call) (snd (run_gen p s0 hs)) css1 ->
+  Forall2 (@Permutation call) (snd (run_gen p s0 hs)) css2 ->
+  replay (List.concat css1) (effective s0) = Some e1 ->
+  replay (List.concat css2) (effective s0) = Some e2 ->
+  Permutation e1 e2.
+Proof.
+  intros Hs Hw Hp H1 H2 E1 E2.
+  destruct (replay_converges p s0 hs Hs Hw Hp css1 H1) as (x1 & X1 & P1).
+  destruct (replay_converges p s0 hs Hs Hw Hp css2 H2) as (x2 & X2 & P2).
+  rewrite E1 in X1. rewrite E2 in X2. inversion X1; inversion X2; subst.
+  etransitivity; [exact P1|now symmetry].
+Qed.
+
+(** * unchanged targets are silent; changed ones are announced once *)
+
+Lemma eff_diff_named (e1 e2 : eff) c :
+  NoDup (keys e1) -> In c (eff_diff e1 e2) -> assoc (call_name c) e1 <> assoc (call_name c) e2.
+Proof.
+  intros H1. unfold TargetCfgModel.eff_diff. rewrite in_app_iff, !in_flat_map.
+  intros [([k v] & Hin & Hc)|([k v] & Hin & Hc)]; cbn [fst snd] in Hc.
+  - destruct (assoc k e2) as [e'|] eqn:E2.
+    + destruct (entry_eqb v e') eqn:Ee; [destruct Hc|]. destruct Hc as [<-|[]]. cbn.
+      rewrite (In_assoc _ _ _ H1 Hin), E2. intros E. inversion E; subst.
+      assert (entry_eqb e' e' = true) by now apply entry_eqb_spec. congruence.
+    + destruct Hc as [<-|[]]. cbn. rewrite (In_assoc _ _ _ H1 Hin), E2. discriminate.
+  - destruct (assoc k e1) eqn:E1; [destruct Hc|]. destruct Hc as [<-|[]]. cbn.
+    rewrite E1. intros E. symmetry in E. apply assoc_None in E. apply E.
+    change k with (fst (k, v)). now apply in_map.
+Qed.
+
+(** [unchanged_silent]: a target whose settings and request content are the
+    same before and after an accepted load gets no handler call. *)
+Lemma unchanged_silent p (s : state) (cf : config) k :
+  state_ok s -> wf_config cf ->
+  load_err R_eqb O_eqb R_empty O_empty p s (Some cf) = None ->
+  assoc k (effective s) = assoc k (effective (Some cf)) ->
+  ~ In k (map call_name (load_calls R_eqb O_eqb R_empty O_empty p s (Some cf))).
+Proof.
+  intros Hs Hw Herr Heq Hin. rewrite load_calls_exact in Hin by assumption.
+  apply in_map_iff in Hin as (c & <- & Hc).
+  apply eff_diff_named in Hc; [contradiction|]. now apply NoDup_keys_effective.
+Qed.
+
+(** conversely a target that is new, gone or different gets exactly one call,
+    of the right kind and with the new content *)
+Lemma changed_announced_once p (s : state) (cf : config) :
+  state_ok s -> wf_config cf ->
+  load_err R_eqb O_eqb R_empty O_empty p s (Some cf) = None ->
+  let cs := load_calls R_eqb O_eqb R_empty O_empty p s (Some cf) in
+  NoDup (map call_name cs)
+  /\ Forall (call_ok (effective s) (effective (Some cf))) cs
+  /\ forall k, assoc k (effective s) <> assoc k (effective (Some cf)) -> In k (map call_name cs).
+Proof.
+  intros Hs Hw Herr cs. subst cs. rewrite load_calls_exact by assumption.
+  destruct (eff_diff_ok (effective s) (effective (Some cf))) as (H1 & H2 & H3).
+  - now apply NoDup_keys_effective.
+  - rewrite keys_effective. apply Hw.
+  - repeat split; auto. intros k Hne.
+    destruct (in_dec string_dec k (map call_name (eff_diff (effective s) (effective (Some cf))))); auto.
+    exfalso. apply Hne. now apply H3.
+Qed.
+
+(** * the announcements do not depend on Go's map iteration order
+
+    The model iterates its association lists front to back; the Go code ranges
+    over maps in random order.  Re-ordering any of the four maps involved only
+    permutes the calls (this is what licenses comparing the calls of one load
+    as a multiset in the correspondence run). *)
+
+Definition config_perm (c c' : config) : Prop :=
+  Permutation (c_request c) (c_request c') /\ Permutation (c_target c) (c_target c').
+
+Definition state_perm (s s' : state) : Prop :=
+  match s, s' with
+  | None, None => True
+  | Some c, Some c' => config_perm c c'
+  | _, _ => False
+  end.
+
+Lemma wf_config_perm (c c' : config) : wf_config c -> config_perm c c' -> wf_config c'.
+Proof.
+  intros [H1 H2] [P1 P2]. split.
+  - eapply Permutation_NoDup; [apply Permutation_map; exact P1|assumption].
+  - eapply Permutation_NoDup; [apply Permutation_map; exact P2|assumption].
+Qed.
+
+Lemma valid_p_perm p (c c' : config) : wf_config c -> config_perm c c' -> valid_p p c -> valid_p p c'.
+Proof.
+  intros Hw [P1 P2] Hv. apply validate_spec. apply validate_spec in Hv.
+  now apply (validate_order_independent p c c' Hw P1 P2).
+Qed.
+
+Lemma effective_perm (c c' : config) :
+  wf_config c -> config_perm c c' -> Permutation (effective (Some c)) (effective (Some c')).
+Proof.
+  intros [H1 _] [P1 P2]. cbn [effective].
+  rewrite (map_ext _ (fun kt : string * tval =>
+                        (fst kt, (snd kt, map_get (get_request_name (snd kt)) (c_request c'))))).
+  - now apply Permutation_map.
+  - intros [k t]. cbn [fst snd]. unfold map_get. now rewrite (assoc_perm _ _ _ H1 P1).
+Qed.
+
+Lemma eff_diff_perm (e1 e1' e2 e2' : eff) :
+  NoDup (keys e1) -> NoDup (keys e2) -> Permutation e1 e1' -> Permutation e2 e2' ->
+  Permutation (eff_diff e1 e2) (eff_diff e1' e2').
+Proof.
+  intros H1 H2 P1 P2. unfold TargetCfgModel.eff_diff. apply Permutation_app.
+  - rewrite (flat_map_ext_In _ (fun ke : string * entry =>
+              match assoc (fst ke) e2' with
+              | None => [HDelete (fst ke)]
+              | Some e' => if entry_eqb (snd ke) e' then [] else [HUpdate (fst ke) (snd e') (fst e')]
+              end)).
+    + now apply Permutation_flat_map.
+    + intros ke _. now rewrite (assoc_perm _ _ _ H2 P2).
+  - rewrite (flat_map_ext_In _ (fun ke : string * entry =>
+              match assoc (fst ke) e1' with
+              | None => [HAdd (fst ke) (snd (snd ke)) (fst (snd ke))]
+              | Some _ => []
+              end)).
+    + now apply Permutation_flat_map.
+    + intros ke _. now rewrite (assoc_perm _ _ _ H1 P1).
+Qed.
+
+Lemma handle_diffs_order_independent (s s' : state) (cf cf' : config) :
+  state_ok s -> valid_p false cf -> wf_config cf ->
+  state_perm s s' -> config_perm cf cf' ->
+  Permutation (handle_diffs s cf) (handle_diffs s' cf').
+Proof.
+  intros Hs Hv Hw Ps Pc.
+  assert (Hs' : state_ok s').
+  { destruct s as [c|], s' as [c'|]; cbn in Ps; try contradiction; try exact I.
+    destruct Hs as [Hcw Hcv]. split; [apply (wf_config_perm c c')|apply (valid_p_perm false c c')]; auto. }
+  rewrite (handle_diffs_spec s cf), (handle_diffs_spec s' cf'); auto.
+  - apply eff_diff_perm.
+    + now apply NoDup_keys_effective.
+    + rewrite keys_effective. apply Hw.
+    + destruct s as [c|], s' as [c'|]; cbn in Ps; try contradiction; try (cbn; constructor).
+      apply effective_perm; [apply Hs|assumption].
+    + now apply effective_perm.
+  - apply (valid_p_perm false cf cf'); auto.
+  - apply (wf_config_perm cf cf'); auto.
 Qed.
 
 End Proofs.
+
+(** * Concrete instances: non-vacuity examples and the refutation for the
+      unpatched code *)
+
+Module Witness.
+Definition scfg := config string string string.
+Definition shop := hop string string string.
+
+Definition tA1 := mkTarget ["a:1"] "r1" "".
+Definition tA2 := mkTarget ["a:2"] "r1" "".
+Definition tB1 := mkTarget ["b:1"] "r1" "".
+
+(** rev 1: t1 -> r1 *)
+Definition cA : scfg := mkConfig 1 [("r1", Some "q")] [("t1", Some tA1)] "".
+(** rev 2: the caller has added t2 to the same message *)
+Definition cA' : scfg := mkConfig 2 [("r1", Some "q")] [("t1", Some tA1); ("t2", Some tB1)] "".
+(** rev 3: request r1 edited (t1, t2 untouched), t3 added *)
+Definition cB : scfg :=
+  mkConfig 3 [("r1", Some "q2")] [("t1", Some tA1); ("t2", Some tB1); ("t3", Some tA2)] "".
+(** rev 4 but invalid: t1 names a request that is gone *)
+Definition cBad : scfg := mkConfig 4 [] [("t1", Some tA1)] "".
+(** rev 5: t2 removed, request renamed r1 -> r9 and t1, t3 re-pointed *)
+Definition cC : scfg :=
+  mkConfig 5 [("r9", Some "q2")]
+           [("t1", Some (mkTarget ["a:1"] "r9" "")); ("t3", Some (mkTarget ["a:2"] "r9" ""))] "".
+
+Definition srun := @run_gen string string string String.eqb String.eqb "" "".
+
+Ltac nodup := repeat constructor; cbn; intuition discriminate.
+
+Lemma wf_cA : wf_config cA. Proof. split; nodup. Qed.
+Lemma wf_cA' : wf_config cA'. Proof. split; nodup. Qed.
+Lemma wf_cB : wf_config cB. Proof. split; nodup. Qed.
+Lemma wf_cBad : wf_config cBad. Proof. split; nodup. Qed.
+Lemma wf_cC : wf_config cC. Proof. split; nodup. Qed.
+
+(** a history with an invalid load between good ones, a stale revision, a
+    request edit under unchanged targets, and a rename + re-point *)
+Definition good_history : list shop :=
+  [HLoad (Some cA); HLoad (Some cA'); HLoad (Some cB); HLoad (Some cBad); HLoad (Some cA);
+   HLoad None; HLoad (Some cC)].
+
+Example good_history_hyps :
+  state_ok (None : state string string string)
+  /\ Forall hop_wf good_history
+  /\ forallb is_load good_history = true.
+Proof.
+  split; [exact I|]. split; [|reflexivity].
+  repeat constructor; cbn; try exact I; try nodup.
+Qed.
+
+(** what the model announces along it: the request edit reaches the two
+    unchanged targets as Updates, the rejected loads announce nothing *)
+Example good_history_calls :
+  snd (srun false None good_history) =
+  [ [HAdd "t1" (Some "q") (Some tA1)];
+    [HAdd "t2" (Some "q") (Some tB1)];
+    [HUpdate "t1" (Some "q2") (Some tA1); HUpdate "t2" (Some "q2") (Some tB1);
+     HAdd "t3" (Some "q2") (Some tA2)];
+    []; []; [];
+    [HUpdate "t1" (Some "q2") (Some (mkTarget ["a:1"] "r9" "")); HDelete "t2";
+     HUpdate "t3" (Some "q2") (Some (mkTarget ["a:2"] "r9" ""))] ]
+  /\ fst (srun false None good_history) = Some cC.
+Proof. split; vm_compute; reflexivity. Qed.
+
+Example gate_example :
+  valid_p true cB /\ newer (Some cA') cB /\ ~ valid_p false cBad /\ ~ newer (Some cB) cA.
+Proof.
+  split; [|split; [|split]].
+  - apply (validate_spec true cB). reflexivity.
+  - cbn. lia.
+  - intros H. apply (validate_spec false cBad) in H. discriminate.
+  - cbn. lia.
+Qed.
+
+Example unchanged_silent_example :
+  load_err String.eqb String.eqb "" "" false (Some cA) (Some cA') = None
+  /\ assoc "t1" (effective (Some cA)) = assoc "t1" (effective (Some cA'))
+  /\ assoc "t2" (effective (Some cA)) <> assoc "t2" (effective (Some cA')).
+Proof. split; [|split]; vm_compute; congruence. Qed.
+
+(** the caller edits the message it loaded and loads it again *)
+Definition alias_history : list shop := [HLoad (Some cA); HMutate cA'; HLoad (Some cA')].
+
+(** [replay_converges] and the gate are false of target.go as it is now once
+    the caller may edit a loaded message in place: the edit becomes the
+    current configuration without any announcement, and the re-load -- valid,
+    revision 2 after the last accepted revision 1 -- is refused. *)
+Lemma replay_converges_unpatched_refuted :
+  exists hs : list shop,
+    Forall hop_wf hs
+    /\ (let r := srun false None hs in
+        exists e, replay (List.concat (snd r)) (effective (None : state string string string)) = Some e
+                  /\ ~ Permutation e (effective (fst r)))
+    /\ load_err String.eqb String.eqb "" "" false
+         (fst (srun false None [HLoad (Some cA); HMutate cA'])) (Some cA') <> None
+    /\ valid_p true cA' /\ newer (Some cA) cA'.
+Proof.
+  exists alias_history. split; [|split; [|split; [|split]]].
+  - repeat constructor; cbn; nodup.
+  - eexists. split; [vm_compute; reflexivity|].
+    intros Hp. apply Permutation_length in Hp. vm_compute in Hp. discriminate.
+  - vm_compute. discriminate.
+  - apply (validate_spec true cA'). reflexivity.
+  - cbn. lia.
+Qed.
+
+(** with the patch the same history converges (instance of [replay_converges]) *)
+Example alias_history_patched :
+  let r := srun true None alias_history in
+  fst r = Some cA' /\ snd r = [[HAdd "t1" (Some "q") (Some tA1)]; []; [HAdd "t2" (Some "q") (Some tB1)]].
+Proof. split; vm_compute; reflexivity. Qed.
+
+End Witness.
